@@ -2,6 +2,7 @@
 
 #include "log_active_fd.h"
 #include "util.h"
+#include "verif.h"
 
 #include <pthread.h>
 #include <stddef.h>
@@ -36,6 +37,7 @@ static struct active_fd *fd_retrieve(void)
     LIST_FOREACH(active_fd, &active_fds, elem)
 	if (active_fd->cnt < MAX_USERS_PER_FD) {
 	    active_fd->cnt++;
+	    XCM_VERIF_EV("afd_get", active_fd->fd, active_fd->cnt, 0);
 	    return active_fd;
 	}
     return NULL;
@@ -58,6 +60,7 @@ static struct active_fd *fd_create(void)
     };
 
     LIST_INSERT_HEAD(&active_fds, active_fd, elem);
+    XCM_VERIF_EV("afd_new", active_fd->fd, active_fd->cnt, 0);
 
     LOG_ACTIVE_FD_CREATED(active_fd->fd);
 
@@ -67,6 +70,7 @@ static struct active_fd *fd_create(void)
 int active_fd_get(void)
 {
     ut_mutex_lock(&active_fd_lock);
+    XCM_VERIF_YIELD("afd");
 
     struct active_fd *active_fd = fd_retrieve();
 
@@ -84,17 +88,20 @@ out:
 void active_fd_put(int fd)
 {
     ut_mutex_lock(&active_fd_lock);
+    XCM_VERIF_YIELD("afd");
 
     struct active_fd *active_fd;
     LIST_FOREACH(active_fd, &active_fds, elem)
 	if (active_fd->fd == fd) {
 	    active_fd->cnt--;
+	    XCM_VERIF_EV("afd_put", fd, active_fd->cnt, 0);
 
 	    if (active_fd->cnt == 0) {
 		LIST_REMOVE(active_fd, elem);
 		ut_close(active_fd->fd);
 		LOG_ACTIVE_FD_CLOSED(active_fd->fd);
 		ut_free(active_fd);
+		XCM_VERIF_EV("afd_close", fd, 0, 0);
 	    }
 
 	    goto out;
